@@ -227,7 +227,10 @@ class _Track:
 
 def gen_program(rng, tier="quick", allow_hazard=False, nsteps=None, init_rows=None, n_obs=None, dtype="int64", big=False):
     """-> case {"steps": [...], "hazard": bool}; the list model is executed while generating"""
-    lens, _ = gen.length_vector(rng, tier, maxrows=5 if tier == "quick" else 8, maxlen=5 if tier == "quick" else 8, stratum="big" if big else None)
+    via = None
+    if not big and init_rows is None and rng.random() < 0.12:
+        via = rng.choice(["fromnumpy", "fromnumpy-F", "tonumpy-called"])       # rectangular contents, built from / converted to a 2-D numpy array
+    lens, _ = gen.length_vector(rng, tier, maxrows=5 if tier == "quick" else 8, maxlen=5 if tier == "quick" else 8, stratum="big" if big else ("rect" if via else None))
     isf = dtype == "float64"
     num = (lambda lo, hi: rng.choice(FLOAT_POOL)) if isf else (lambda lo, hi: rng.randint(lo, hi))
     read_ops = FLOAT_OBS if isf else READ_OPS
@@ -236,6 +239,8 @@ def gen_program(rng, tier="quick", allow_hazard=False, nsteps=None, init_rows=No
     env = {"a0": copy.deepcopy(init_rows)}
     track = {"a0": _Track(0)}
     steps = [{"op": "init", "v": "a0", "rows": copy.deepcopy(init_rows), "dtype": dtype}]
+    if via:
+        steps[0]["via"] = via
     counter = [1]
     hazard = False
     nsteps = nsteps or rng.randint(2, 8 if tier == "quick" else 14)
@@ -579,7 +584,17 @@ def run_lib(steps, mode="L", read_plan=None, purity=False, trace=None):
                     trace.append((op + ":" + nm, "lazy" if is_lazy(env[st[nm]]) else "materialised", ""))
         if op == "init":
             flat = np.array([x for r in st["rows"] for x in r], dtype=DT)
-            env[st["v"]] = RA(flat, [len(r) for r in st["rows"]])
+            lens0 = [len(r) for r in st["rows"]]
+            if st.get("via") and mode == "L" and lens0 and len(set(lens0)) == 1:
+                # as written: the array comes from a 2-D numpy array; in mode F the variable is the freshly built equal array
+                m0 = flat.reshape(len(lens0), lens0[0])
+                if st["via"] == "tonumpy-called":
+                    env[st["v"]] = RA(flat, lens0)
+                    env[st["v"]].to_numpy_array()
+                else:
+                    env[st["v"]] = RA.from_numpy_array(np.asfortranarray(m0) if st["via"] == "fromnumpy-F" else m0)
+            else:
+                env[st["v"]] = RA(flat, lens0)
             groups[st["v"]] = st["v"]
         elif op == "sel":
             new = env[st["u"]][model.make_index(st["rs"], st["cs"], st["has_cs"])]
